@@ -34,8 +34,8 @@ func init() {
 				}
 				return 2*270 + 100000
 			}, Run: c19Valid},
-			{Name: "invalid-values", N: fw.Const(10000, 200000), Run: c19Invalid},
-			{Name: "decoder-fuzz", N: fw.Const(15000, 400000), Run: c19Fuzz},
+			{Name: "invalid-values", N: fw.Const(30000, 300000), Run: c19Invalid},
+			{Name: "decoder-fuzz", N: fw.Const(60000, 600000), Run: c19Fuzz},
 		},
 	})
 }
